@@ -237,7 +237,7 @@ def model_hist(ctx, exe, hists, fuel=20000):
 
 def first_mismatch(mobs, iobs):
     if isinstance(iobs, str):
-        return [("history:crash", iobs)]
+        return [("history:crash", iobs)]          # outer() renames it when a forced-gc schedule was active
     if iobs is None:
         return [("history:no-output", "")]
     if mobs is None:
@@ -265,7 +265,7 @@ def shrink(ctx, exe, d, h, sig, env, budget=40):
         mo = model_hist(ctx, exe, [hh])[0]
         io = run_impl(d, [hh], timeout=120, extra_env=env)[0]
         mm = first_mismatch(mo, io)
-        if mm and any(s == sig for s, _ in mm):
+        if mm and any(s == ("history:crash" if sig.startswith("history:crash") else sig) for s, _ in mm):
             ops = cand
         else:
             i += 1
@@ -286,6 +286,8 @@ def outer(ctx, exe, d, variant, hists, env=None):
         mm = first_mismatch(mo, io)
         if mm:
             for sig, text in mm:
+                if sig == "history:crash" and env and "CHIBI_VERIF_GC" in env:
+                    sig = "history:crash-under-forced-gc"
                 if sig in reported:
                     continue
                 reported.add(sig)
@@ -324,11 +326,18 @@ def parse_dumps(path, wanted):
                     else:
                         sec[k].append(t)
                 cur["objs"].append((cur["hi"], off, tag, mk, br, sec["S"] + sec["C"], sec["W"] if weakp else None, sec["X"]))
+            elif c == "K":
+                if cur is None or not cur["objs"]:
+                    continue
+                f = line.split()
+                last = cur["objs"][-1]
+                if last[1] == int(f[1]):
+                    cur["kinds"][(last[0], last[1])] = f[2:]
             elif c == "D":
                 f = line.split()
                 phase, g = f[1], int(f[2][3:])
                 if g in wanted:
-                    cur = dict(root=None, objs=[], hi=0)
+                    cur = dict(root=None, objs=[], hi=0, kinds={})
                     res.setdefault(g, {})[phase] = cur
                 else:
                     cur = None
@@ -352,13 +361,38 @@ def ref_of(t):
     return "%x" % addr_of(int(hi), int(off))
 
 
+def kind_string(dump, hi, off):
+    k = dump["kinds"].get((hi, off))
+    if not k:
+        return "p"
+    if k[0] == "P":       # P openp no_closep streamfd(-1 none, -2 closed stream)
+        stream = "-" if int(k[3]) == -1 else "%x" % addr_of(hi, off)      # the FILE* descriptor is named by its port
+        return "P%s%s:%s" % (k[1], k[2], stream)
+    fd, cnt = int(k[3]), int(k[4])                                        # N openp no_closep fd count
+    hx = lambda v: ("-%x" % -v) if v < 0 else ("%x" % v)
+    return "F%s%s:%s:%s" % (k[1], k[2], hx(fd), hx(cnt))
+
+
 def heap_string(dump, fin_tags):
     objs, nslots = [], 0
     for (hi, off, tag, mk, br, S, W, X) in dump["objs"]:
         nslots += len(S) + (len(W) if W else 0) + len(X)
-        objs.append("%x|%s|%s|%s|%s|%s|p" % (addr_of(hi, off), ",".join(ref_of(t) for t in S), "1" if W is not None else "0",
-                                           ",".join(ref_of(t) for t in (W or [])), ",".join(ref_of(t) for t in X), "1" if br else "0"))
+        objs.append("%x|%s|%s|%s|%s|%s|%s" % (addr_of(hi, off), ",".join(ref_of(t) for t in S), "1" if W is not None else "0",
+                                            ",".join(ref_of(t) for t in (W or [])), ",".join(ref_of(t) for t in X), "1" if br else "0",
+                                            kind_string(dump, hi, off)))
     return ";".join(objs), nslots
+
+
+def impl_kinds(dump):
+    res = {}
+    for (hi, off), k in dump["kinds"].items():
+        a = "%x" % addr_of(hi, off)
+        if k[0] == "P":
+            res[a] = "P%s%s" % (k[1], k[2])
+        else:
+            hx = lambda v: ("-%x" % -v) if v < 0 else ("%x" % v)
+            res[a] = "F%s%s:%s:%s" % (k[1], k[2], hx(int(k[3])), hx(int(k[4])))
+    return res
 
 
 def inner(ctx, exe, d, hists, ngc):
@@ -380,7 +414,7 @@ def inner(ctx, exe, d, hists, ngc):
     os.makedirs(B.SCRATCH, exist_ok=True)
     tr = tempfile.NamedTemporaryFile(prefix="c16-trace-", dir=B.SCRATCH, delete=False).name
     try:
-        second = run_impl(d, hists, timeout=600, extra_env=dict(CHIBI_VERIF_TRACE=tr, CHIBI_VERIF_DUMP=",".join(map(str, wanted))))
+        second = run_impl(d, hists, timeout=600, extra_env=dict(CHIBI_VERIF_TRACE=tr, CHIBI_VERIF_DUMP=",".join(map(str, wanted)), CHIBI_VERIF_DUMP_KINDS="1"))
         dumps = parse_dumps(tr, set(wanted))
     finally:
         try:
@@ -388,6 +422,7 @@ def inner(ctx, exe, d, hists, ngc):
         except OSError:
             pass
     nweak_total = 0
+    nfin_total = [0]
     for g in wanted:
         ph = dumps.get(g, {})
         if not all(k in ph for k in ("pre", "marked", "weak", "post")):
@@ -415,7 +450,21 @@ def inner(ctx, exe, d, hists, ngc):
             if not out.startswith("OK "):
                 ctx.broken("inner-correspondence:C16:" + name, "model answered %s on the dump of collection %d" % (out[:80], g))
                 continue
-            _, ret, wk, _log = out.split(" ")
+            _, ret, wk, _log, mk = out.split(" ")
+            mkinds = {}
+            if mk != "-":
+                for e in mk.split(";"):
+                    a, v = e.split(":", 1)
+                    mkinds[a] = v
+            ik = impl_kinds(post)
+            nfin_total[0] += len(ik)
+            if ik and mkinds != ik:
+                diff = [a for a in sorted(set(mkinds) | set(ik)) if mkinds.get(a) != ik.get(a)][:3]
+                prek = impl_kinds(pre)
+                ctx.violation("dump:port-fileno-state", input="collection %d" % g,
+                              expected="model: " + "; ".join("%s %s" % (a, mkinds.get(a)) for a in diff),
+                              observed="impl: " + "; ".join("%s %s (before the collection %s)" % (a, ik.get(a), prek.get(a)) for a in diff),
+                              replay=_dump_replay(d, hists, g))
             ret = set(ret.split(",")) if ret != "-" else set()
             mw = {}
             if wk != "-":
@@ -440,13 +489,15 @@ def inner(ctx, exe, d, hists, ngc):
                                                                    (pre_weak[a][6], pre_weak[a][7], pre_weak[a][4]) if a in pre_weak else None) for a in diff)
                 ctx.violation("dump:weak-object-state", input="collection %d" % g, expected="model (= SPEC by key_broken_iff_unreachable): see why",
                               observed="see why", why=detail, replay=_dump_replay(d, hists, g))
-    ctx.note("inner: %d collections replayed (%s), %d weak objects compared" % (len(wanted), wanted, nweak_total))
+    ctx.note("inner: %d collections replayed (%s), %d weak objects and %d port/fileno states compared" % (len(wanted), wanted, nweak_total, nfin_total[0]))
+    if nfin_total[0] == 0:
+        ctx.note("inner: the build prints no port/fileno state (fixes/hook-C16-dump-port-state.patch not applied): finaliser effects are tied by the outer histories only")
     if nweak_total == 0:
         ctx.broken("inner-correspondence:C16", "no weak object in any dumped collection")
 
 
 def _dump_replay(d, hists, g):
-    return ("printf '%s\\n' | CHIBI_VERIF_TRACE=/dev/stdout CHIBI_VERIF_DUMP=%d LD_LIBRARY_PATH=%s CHIBI_MODULE_PATH=%s/lib CHIBI_IGNORE_SYSTEM_PATH=1 %s/chibi-scheme %s"
+    return ("printf '%s\\n' | CHIBI_VERIF_TRACE=/dev/stdout CHIBI_VERIF_DUMP=%d CHIBI_VERIF_DUMP_KINDS=1 LD_LIBRARY_PATH=%s CHIBI_MODULE_PATH=%s/lib CHIBI_IGNORE_SYSTEM_PATH=1 %s/chibi-scheme %s"
             % ("\\n".join(hist_line(h) for h in hists), g, d, d, d, os.path.abspath(HIST_SCM)))
 
 
@@ -526,21 +577,36 @@ def run(ctx):
                 if line and not line.startswith("#"):
                     ns, ops = line.split(" ", 1)
                     corpus.append((int(ns), ops.split(";"), "corpus:" + f))
-    n_def, n_asan, n_sched = (160, 40, 30) if not thorough else (4000, 1000, 1000)
+    n_def, n_asan, n_sched = (160, 40, 30) if not thorough else (8000, 2000, 2000)
     hists = corpus + gen_histories(rng, n_def)
     mobs, iobs = outer(ctx, exe, d, "default", hists)
     for h, m, i in list(zip(hists, mobs, iobs))[len(corpus):len(corpus) + 3]:
         ctx.sample(dict(kind="outer", history=hist_line(h), family=h[2], model=m, impl=i))
     # sparse forced collections at arbitrary allocation points must not change any observation
     hs2 = gen_histories(rng, n_sched)
-    outer(ctx, exe, d, "default", corpus + hs2, env=dict(CHIBI_VERIF_GC="seed:%d:%d" % (rng.randrange(1, 1000), 4000)))
+    # Forcing collections can crash the pinned compiler while the driver script itself is being compiled (a context
+    # object swept in use: triaged under C02, nothing to do with weak references).  The allocation numbering of the
+    # start-up is the same for every input, so a schedule is usable iff the empty history survives it.
+    sched = None
+    for _ in range(8):
+        cand = dict(CHIBI_VERIF_GC="seed:%d:%d" % (rng.randrange(1, 1000), 4000))
+        if isinstance(run_impl(d, [(1, ["G"], "probe")], timeout=120, extra_env=cand)[0], list):
+            sched = cand
+            break
+        ctx.note("forced-gc schedule %s crashes the start-up of the driver (C02's compiler issue); trying another" % cand["CHIBI_VERIF_GC"])
+    if sched is None:
+        ctx.note("no usable forced-gc schedule found; the forced-schedule histories were skipped")
+    else:
+        outer(ctx, exe, d, "default+forced-gc", corpus + hs2, env=sched)
     # inner correspondence on dumps
     hd = []
     for k in (3, 5):
         hd.append((k + 3,) + (gen_chain(rng, k, True)[1], "chain%d" % k))
     hd.append(gen_selfref(rng) + ("selfref",))
+    hd.append((4, "F,0;P,1,0;P,2,0;O,3;G;D,1;D,3;G;X,2;G;D,0;D,2;G".split(";"), "ports-shared-fileno"))
+    hd.append(gen_ports(rng) + ("ports",))
     hd += [(h[0], h[1], h[2]) for h in gen_histories(rng, 4 if not thorough else 30)]
-    inner(ctx, exe, d, hd, 8 if not thorough else 60)
+    inner(ctx, exe, d, hd, 12 if not thorough else 80)
     # asan: touching a swept value traps
     try:
         da = ctx.build("asan")
